@@ -37,6 +37,7 @@ from ..model import walk_no_nested, norm, call_name, FuncInfo
 from ..facts import FuncFacts, facts_at, stmt_paths, count_paths
 from ..report import Ctx, AnalysisError
 from ..construles import constant_membership_tests
+from ..stalerules import stale_loop_reads
 from ..flow import bound_arg, resolve_local, local_defs
 from ..defassign import possibly_undefined
 from .. import apirules
@@ -72,6 +73,8 @@ def check(ctx: Ctx):
     ctx.rule("R-CAPACITY", "free placements only on agents with enough remaining capacity (all hosted and pinned footprints deducted); pinned placements followed by a feasibility test")
     ctx.rule("R-COMPLETE", "free and pinned computations partition the nodes; the result contains both")
     ctx.rule("R-HINTS", "the result of distribute depends on its hints argument")
+    ctx.rule("R-SOLVED", "an ILP-based method only returns a mapping extracted from a solved model: every return of a function that solves passes through the solve call")
+    ctx.rule("R-STALE", "no read of a loop variable after its loop has ended (distribution modules and the hints loader)")
     ctx.rule("R-DEADTEST", "a membership test is not made constant by a store of the same key a few statements before it")
     ctx.rule("R-KINDS", "names returned by the hints are computations: they are never used as keys of the per-agent tables")
     ctx.rule("R-ONCE", "a computation is added to an agent's set only when it is not hosted yet, or on the agent that already hosts it")
@@ -103,6 +106,54 @@ def check(ctx: Ctx):
             if not hits:
                 ctx.ok("R-DEADTEST", f"{name}.{f.qualname}", f, f.node, sample=False)
         _kinds(ctx, repo, name, m)
+    # stale loop variables, and the hints read from yaml reach DistributionHints whole
+    STALE_OK = {("pydcop.distribution.adhoc:_distribute_try", "a"): "sort key `len(mapping[a])` is constant (slip for x): the candidates stay unsorted, any of them is a valid host"}
+    ymod = repo.module("pydcop.dcop.yamldcop")
+    ctx.touch(ymod)
+    n_st = 0
+    for m_ in list(methods.values()) + [ymod]:
+        for f in repo.all_functions(m_):
+            n_st += 1
+            for lp_, rd in stale_loop_reads(f.node):
+                if (f.fq, rd.id) in STALE_OK:
+                    continue
+                ctx.bad("R-STALE", f"{f.fq}: `{rd.id}` read after its loop", f, rd,
+                        f"`{rd.id}` is only bound as the target of the `for` at line {lp_.lineno}, which has ended: here it holds the last element (or nothing). "
+                        "E.g. as the key of a comprehension it collapses all entries onto one key")
+            ctx.ok("R-STALE", f.fq, f, f.node, sample=False)
+    n_solve = 0
+    for name, m_ in methods.items():
+        for f in repo.all_functions(m_):
+            sv = [c for c in walk_no_nested(f.node) if isinstance(c, ast.Call) and isinstance(c.func, ast.Attribute) and c.func.attr == "solve"]
+            if not sv:
+                continue
+            n_solve += 1
+            k = count_paths(f.node.body, lambda st_: 1 if any(any(x is c for c in sv) for x in ast.walk(st_)) and not isinstance(st_, (ast.If, ast.For, ast.While, ast.Try, ast.With)) else 0).k
+            lo = k.get("return", (1, 1))[0]
+            rets = [r for r in walk_no_nested(f.node) if isinstance(r, ast.Return)]
+            firstret = min(rets, key=lambda r: r.lineno) if rets else f.node
+            ctx.check(lo >= 1, "R-SOLVED", f"{name}.{f.qualname}: every return follows the solve call", f, firstret,
+                      "the capacity, exactly-once and must-host constraints only exist inside the linear program: a shortcut that returns without solving (e.g. when every "
+                      "computation is pinned) returns a mapping nobody checked against the capacities")
+    if n_solve < 4:
+        raise AnalysisError(f"R-SOLVED: only {n_solve} solving functions found in the distribution modules (expected >= 4)")
+    bh = repo.func("pydcop.dcop.yamldcop", "_build_dist_hints")
+    mk = [c for c in ast.walk(bh.node) if isinstance(c, ast.Call) and call_name(c) == "DistributionHints"]
+    ok = len(mk) == 1 and len(mk[0].args) >= 1
+    if ok:
+        d_ = [a for a in walk_no_nested(bh.node) if isinstance(a, ast.Assign) and norm(a.targets[0]) == norm(mk[0].args[0]) and norm(a.value) != "None"
+              and not (isinstance(a.targets[0], ast.Tuple))]
+        ok = len(d_) == 1
+        if ok:
+            v = d_[0].value
+            if isinstance(v, ast.DictComp):
+                g = v.generators[0]
+                ok = norm(g.iter) in ("loaded['must_host'].items()",) and isinstance(g.target, ast.Tuple) and norm(v.key) == norm(g.target.elts[0]) and not g.ifs and len(v.generators) == 1 \
+                    and norm(g.target.elts[1]) in norm(v.value)
+            else:
+                ok = norm(v) in ("loaded['must_host']", "dict(loaded['must_host'])", "loaded['must_host'].copy()")
+    ctx.check(ok, "R-HINTS", "yaml must_host hints reach DistributionHints with every agent's entry", bh, mk[0] if mk else bh.node,
+              "every agent listed under must_host keeps its own list: a rebuilt mapping must be keyed by its own iteration variable")
     _capacity_gh(ctx, repo, "gh_cgdp", pinned=True)
     _capacity_gh(ctx, repo, "heur_comhost", pinned=False)
     _capacity_adhoc(ctx, repo)
@@ -699,6 +750,9 @@ def _oneagent(ctx, repo):
 
 _D = "pydcop/distribution/"
 VARIANTS = [
+    ("fgdp_all_pinned_shortcut", _D + "ilp_fgdp.py", "    # x_i^k : binary variable indicating if var x_i is hosted on agent a_k.\n    xs = _build_xs_binvar(vars_to_host, agents_names)", "    if not vars_to_host and not facs_to_host:\n        return fixed_dist\n    # x_i^k : binary variable indicating if var x_i is hosted on agent a_k.\n    xs = _build_xs_binvar(vars_to_host, agents_names)", "break", "R-SOLVED"),
+    ("yaml_must_host_keyed_by_stale_name", "pydcop/dcop/yamldcop.py", "        must_host = loaded[\"must_host\"]\n", "        must_host = {\n            a: list(computations)\n            for agt, computations in loaded[\"must_host\"].items()\n        }\n", "break", "R-"),
+    ("n_yaml_must_host_copied", "pydcop/dcop/yamldcop.py", "        must_host = loaded[\"must_host\"]\n", "        must_host = {\n            agt: list(computations)\n            for agt, computations in loaded[\"must_host\"].items()\n        }\n", "neutral"),
     ("heur_backtrack_reads_before_stepping_back", _D + "heur_comhost.py", "            i -= 1\n            logger.info(", "            previous = computations[i][1]\n            i -= 1\n            current_mapping.get(previous.name)\n            logger.info(", "neutral"),
     ("heur_backtrack_unplaces_failed_computation", _D + "heur_comhost.py", ["            i -= 1\n            logger.info(", "            current_mapping.pop(computations[i][1].name)\n"], ["            previous = computations[i][1]\n            i -= 1\n            logger.info(", "            current_mapping.pop(previous.name)\n"], "break", "R-CAPACITY"),
     ("adhoc_hostwith_var_hosted_twice", _D + "adhoc.py", "            if hostwith[0] in var_hosted:\n                # The variable is already hosted (e.g. by a must_host hint):\n                # the factor joins it, the variable must not be hosted twice.\n                selected = var_hosted[hostwith[0]]\n            elif candidates:",
